@@ -695,3 +695,116 @@ func c02UnderSwitch(res *Result) {
 	}
 	pongo2.SetAutoescape(true)
 }
+
+// c20LoaderHistories: cache histories over a set that gets further loaders with base directories of
+// their own (AddLoader), compared with the Lean cache model (Model/Sets.lean: `more`): identity
+// classes of the returned templates, errors, and every Get of every loader in order
+func c20LoaderHistories(cfg Config, res *Result) {
+	n := 800
+	if cfg.Thorough() {
+		n = 20000
+	}
+	rng := NewRNG(cfg.Seed*31 + 0xC20)
+	names := []string{"a.tpl", "b.tpl", "./a.tpl", "/r/a.tpl", "sub/c.tpl", "../b.tpl", "/b/b.tpl", "c.tpl"}
+	bases := []string{"/r", "/b", "/b/sub", "/r/"}
+	bodies := []string{"x", "y{{ 1 }}", "{% if %}", "z"}
+	var reqs, impls, descs []string
+	for i := 0; i < n; i++ {
+		sink := &sharedLog{}
+		first := &memLoader{files: map[string]string{}, id: "0", sink: sink}
+		set := pongo2.NewSet("c20l", first)
+		var more []*memLoader
+		var wire, desc, out []string
+		ids := map[*pongo2.Template]int{}
+		for j, k := 0, 3+rng.Intn(18); j < k; j++ {
+			switch c := rng.Intn(12); {
+			case c == 0 && len(more) < 3 || j == 0:
+				b := rng.Pick(bases)
+				ml := &memLoader{files: map[string]string{}, id: fmt.Sprint(len(more) + 1), sink: sink, root: b}
+				more = append(more, ml)
+				set.AddLoader(ml)
+				wire = append(wire, "B "+hxb(b))
+				desc = append(desc, "AddLoader(base "+b+")")
+			case c <= 3 && len(more) > 0:
+				ix := rng.Intn(len(more))
+				name := rng.Pick(names)
+				key := more[ix].Abs("", name)
+				if rng.Chance(1, 5) {
+					delete(more[ix].files, key)
+					wire = append(wire, fmt.Sprintf("V %d %s !", ix, hxb(name)))
+					desc = append(desc, fmt.Sprintf("loader %d: delete %s", ix+1, name))
+				} else {
+					b := rng.Pick(bodies)
+					more[ix].files[key] = b
+					wire = append(wire, fmt.Sprintf("V %d %s %s", ix, hxb(name), hxb(b)))
+					desc = append(desc, fmt.Sprintf("loader %d: write %s=%q", ix+1, name, b))
+				}
+			case c == 4:
+				name := rng.Pick(names)
+				key := first.Abs("", name)
+				if rng.Chance(1, 4) {
+					delete(first.files, key)
+					wire = append(wire, "W "+hxb(name)+" !")
+					desc = append(desc, "loader 0: delete "+name)
+				} else {
+					b := rng.Pick(bodies)
+					first.files[key] = b
+					wire = append(wire, "W "+hxb(name)+" "+hxb(b))
+					desc = append(desc, fmt.Sprintf("loader 0: write %s=%q", name, b))
+				}
+			case c == 5:
+				set.CleanCache()
+				wire = append(wire, "A")
+				desc = append(desc, "CleanCache()")
+			case c == 6:
+				name := rng.Pick(names)
+				set.CleanCache(name)
+				wire = append(wire, "K 1 "+hxb(name))
+				desc = append(desc, "CleanCache("+name+")")
+			case c == 7:
+				set.Debug = rng.Bool()
+				if set.Debug {
+					wire = append(wire, "D1")
+				} else {
+					wire = append(wire, "D0")
+				}
+				desc = append(desc, fmt.Sprint("Debug=", set.Debug))
+			default:
+				name := rng.Pick(names)
+				got := within(5*time.Second, func() string {
+					tpl, err := set.FromCache(name)
+					if err != nil || tpl == nil {
+						return "e"
+					}
+					if _, ok := ids[tpl]; !ok {
+						ids[tpl] = len(ids)
+					}
+					return fmt.Sprintf("t%d", ids[tpl])
+				})
+				out = append(out, got)
+				wire = append(wire, "G "+hxb(name))
+				desc = append(desc, "FromCache("+name+")")
+			}
+		}
+		var logNames []string
+		sink.mu.Lock()
+		for _, l := range sink.log {
+			logNames = append(logNames, hxb(l[strings.Index(l, ":")+1:]))
+		}
+		sink.mu.Unlock()
+		impls = append(impls, strings.Join(out, " ")+" | "+strings.Join(logNames, ","))
+		reqs = append(reqs, "cache "+strings.Join(wire, " "))
+		descs = append(descs, strings.Join(desc, "; "))
+	}
+	model, err := runDriver(cfg.Driver, reqs)
+	if err != nil {
+		res.add(Finding{Kind: "disagree", Proj: "driver", Sig: "driver-failed", Model: err.Error()})
+		return
+	}
+	res.Cases += len(reqs)
+	for i := range reqs {
+		if model[i] != impls[i] {
+			res.add(Finding{Kind: "disagree", Proj: "cache", Sig: "c20-loaders-model", Case: descs[i], Impl: impls[i], Model: model[i]})
+		}
+	}
+}
